@@ -149,9 +149,9 @@ def layouts(draw, tokens, cfg, comment, tightness=0):
         styles = ["spaces", "mixed", "tight", "tight", "none", "none"]
     style = draw(st.sampled_from(styles))
     pool = [" ", " ", " ", "\n", "\t", "  ", " \n ", ""]
-    if comment == "line":
+    if comment in ("line", "both"):
         pool += [" # c\n", "#x\n"]
-    if comment == "block":
+    if comment in ("block", "both"):
         pool += [" /* c */ ", "/*x*/"]
     out = draw(st.sampled_from(["", "", " ", "\n"])) if style == "mixed" else ""
     for i, t in enumerate(tokens):
